@@ -28,9 +28,10 @@ def run(ctx):
     enc = compile_driver('hook', 'drv_enc.c', 'drv_enc')
     N = 40 if ctx.quick() else 800
     cases = []   # (blob, label, [(kind, flags, oracle cmd)])
-    ALONE = [(3, 0, 'alonedec 0'), (2, 0, 'autodec 0'), (2, LZMA_CONCATENATED, 'autodec 1')]
-    LZIP = [(4, 0, 'lzipdec 0'), (4, LZMA_CONCATENATED, 'lzipdec 1'), (2, 0, 'autodec 0'), (2, LZMA_CONCATENATED, 'autodec 1')]
-    XZ = [(0, 0, 'xzdec 0'), (0, LZMA_CONCATENATED, 'xzdec 1'), (2, 0, 'autodec 0'), (2, LZMA_CONCATENATED, 'autodec 1')]
+    ALONE = [(3, 0, 'alonedec 0'), (2, 0, 'autodec 0'), (2, LZMA_CONCATENATED, 'autodec 1'), (2, 0x05, 'autodec 0')]
+    # 0x01 TELL_NO_CHECK, 0x02 TELL_UNSUPPORTED_CHECK, 0x04 TELL_ANY_CHECK: informational returns in the middle of the header; the verdict stays the same
+    LZIP = [(4, 0, 'lzipdec 0'), (4, LZMA_CONCATENATED, 'lzipdec 1'), (2, 0, 'autodec 0'), (2, LZMA_CONCATENATED, 'autodec 1'), (4, 0x04, 'lzipdec 0'), (4, LZMA_CONCATENATED | 0x07, 'lzipdec 1'), (2, 0x05, 'autodec 0')]
+    XZ = [(0, 0, 'xzdec 0'), (0, LZMA_CONCATENATED, 'xzdec 1'), (2, 0, 'autodec 0'), (2, LZMA_CONCATENATED, 'autodec 1'), (0, 0x07, 'xzdec 0'), (2, LZMA_CONCATENATED | 0x04, 'autodec 1')]
     # .lzma
     micro_lines, micro_meta = [], []
     for i in range(N):
